@@ -168,6 +168,20 @@ def _check_z3_old(smt2, timeout_s):
     return r, time.time() - t0
 
 
+def _model_text(smt2, timeout_s=15):
+    """Model (sexpr) of a satisfiable query, for the replay of the counterexample on the real code."""
+    with tempfile.NamedTemporaryFile("w", suffix=".smt2", delete=False, dir=os.environ.get("PYVC_TMP", None)) as f:
+        f.write(smt2 + "\n(get-model)\n")
+        path = f.name
+    try:
+        p = subprocess.run(["z3-new", f"-T:{timeout_s}", "smt.ematching=false", path], capture_output=True, text=True, timeout=timeout_s + 5)
+        return p.stdout[p.stdout.index("\n") + 1:] if p.stdout.startswith("sat") else None
+    except (subprocess.TimeoutExpired, FileNotFoundError, ValueError):
+        return None
+    finally:
+        os.unlink(path)
+
+
 def _race(smt2, z3_timeout_s, cvc5_timeout_s):
     """Run z3 (CLI, e-matching off) and cvc5 concurrently on the same SMT-LIB text; first sat/unsat wins."""
     tmpdir = os.environ.get("PYVC_TMP", None)
@@ -301,6 +315,8 @@ def solve_one(job):
         r3, dt3 = _check_z3_old(smt2, 20)
         note("z3-4.8.12", r3, dt3)
         final = r3
+    if final == "sat" and not res.get("model"):
+        res["model"] = _model_text(smt2)
     if cover:
         res["verdict"] = {"sat": "proved", "unsat": "refuted", "unknown": "unknown", "conflict": "unknown"}[final]
     else:
